@@ -1091,3 +1091,107 @@ func ordinalOfIface(in ssa.Instruction, ms ...*types.Func) string {
 	})
 	return fmt.Sprint(idx)
 }
+
+func init() {
+	register("C17", "Clause decided (one clause; where a statement boundary lies is a question about the SQL grammar over all texts and is not decided): the first failing statement stops execution and every piece is executed through the checked path: in SessionExecutor.doMultiStmts every piece of the split text is handed to doQuery (the gate of C21) and on the error edge of a piece's doQuery no further piece is executed and no further result is written before the function returns that error; a piece's result is written to the client only on the success edge.",
+		ruleC17)
+}
+
+func ruleC17(c *Ctx, r *Report) {
+	const rule = "MP-C17"
+	r.floor(rule, 2)
+	fn := c.seMethod("doMultiStmts")
+	doQuery := c.seMethod("doQuery")
+	split := c.Func("parser", "SplitStatementToPieces")
+	writeResp := c.Method(serverRel, "Session", "writeResponse")
+	if fn == nil || doQuery == nil || split == nil || writeResp == nil {
+		r.undecided(rule, "(*proxy/server.SessionExecutor).doMultiStmts", "anchor", "-", "anchors not found")
+		return
+	}
+	name := c.FuncName(fn)
+	n := 0
+	for _, ci := range callsIn(fn, func(cc *ssa.CallCommon) bool { return callsFunc(cc, doQuery) }) {
+		call, ok := ci.(*ssa.Call)
+		if !ok {
+			continue
+		}
+		// only calls inside the loop over the pieces
+		inLoop := false
+		for _, s := range call.Block().Succs {
+			if blockReachable(s, call.Block()) {
+				inLoop = true
+			}
+		}
+		if !inLoop {
+			continue
+		}
+		n++
+		more := false
+		var bad []Exit
+		ne := 0
+		for _, e := range errNilEdgesOfCall(call) {
+			if e.Val {
+				continue
+			}
+			ne++
+			bad = append(bad, searchExits(fn, nil, e.If.Block().Succs[e.Succ], SearchOpts{
+				Stop: func(in ssa.Instruction) bool {
+					cc := callCommon(in)
+					if cc != nil && (callsFunc(cc, doQuery) || callsFunc(cc, writeResp)) {
+						more = true
+						return true
+					}
+					return false
+				},
+				ExitOK: func(in ssa.Instruction) bool {
+					ret, ok := in.(*ssa.Return)
+					if !ok {
+						return true
+					}
+					isNil, known := returnsNilError(ret)
+					return known && !isNil
+				},
+			})...)
+		}
+		cons := fmt.Sprintf("piece#%d:failure-stops", n)
+		switch {
+		case ne == 0:
+			r.viol(rule, name, cons, c.Pos(call.Pos()), "the error of a piece is not tested: later pieces run after a failed one")
+		case more || len(bad) > 0:
+			r.viol(rule, name, cons, c.Pos(call.Pos()), "after a piece failed, another piece can still be executed (or a result written, or success returned): the first failing statement does not stop the packet")
+		default:
+			r.ok(rule, name, cons, c.Pos(call.Pos()), "on the failure edge nothing more is executed or written and the error is returned")
+		}
+		// results are written only on the success edge
+		for _, wi := range callsIn(fn, func(cc *ssa.CallCommon) bool { return callsFunc(cc, writeResp) }) {
+			if dominatedByNilErr(wi, call) {
+				r.ok(rule, name, fmt.Sprintf("piece#%d:result-written-on-success", n), c.Pos(wi.Pos()), "the intermediate result is written only after the piece succeeded")
+			} else {
+				r.viol(rule, name, fmt.Sprintf("piece#%d:result-written-on-success", n), c.Pos(wi.Pos()), "an intermediate result can be written for a piece that failed")
+			}
+		}
+	}
+	if n == 0 {
+		r.undecided(rule, name, "pieces-loop", c.Pos(fn.Pos()), "no doQuery call inside a loop over the pieces")
+	}
+	// the pieces come from the splitter (def-use): the loop ranges over its first result
+	okSrc := false
+	for _, ci := range callsIn(fn, func(cc *ssa.CallCommon) bool { return callsFunc(cc, split) }) {
+		if ex := extractOf(ci.(ssa.Value), 0); ex != nil {
+			a := aliasSet(ex)
+			allInstrs(fn, func(in ssa.Instruction) {
+				if ia, ok := in.(*ssa.IndexAddr); ok && a.has(ia.X) {
+					okSrc = true
+				}
+				if rg, ok := in.(*ssa.Range); ok && a.has(rg.X) {
+					okSrc = true
+				}
+			})
+		}
+	}
+	if okSrc {
+		r.ok(rule, name, "pieces-from-splitter", c.Pos(fn.Pos()), "the executed pieces are the elements of SplitStatementToPieces' result, in order")
+	} else {
+		r.viol(rule, name, "pieces-from-splitter", c.Pos(fn.Pos()), "the loop does not iterate over the splitter's result")
+	}
+}
